@@ -348,6 +348,8 @@ func (w *world) result(l *liveReq, wd time.Duration) (s string) {
 	}
 }
 
+var againBudget = 8
+
 func runCase(t *tr.W, c *caseSpec) (hangs int) {
 	w := build(c)
 	w.sc = neutrino.NewUtxoScanner(&neutrino.UtxoScannerConfig{
@@ -467,10 +469,16 @@ func runCase(t *tr.W, c *caseSpec) (hangs int) {
 			hangs++
 		}
 	}
-	if c.again {
+	// A second Result call must return what the first returned.  (If it blocks, each call costs a
+	// watchdog period: after a few such observations only the probe keeps asking.)
+	if c.again || againBudget > 0 {
 		for _, l := range w.live {
 			if l.read && l.req != nil && l.obs != "HANG" {
-				t.Op(fmt.Sprintf("again %d", l.spec.id), w.result(l, c.wd))
+				o := w.result(l, 120*time.Millisecond)
+				t.Op(fmt.Sprintf("again %d", l.spec.id), o)
+				if o == "HANG" {
+					againBudget--
+				}
 			}
 		}
 	}
@@ -654,6 +662,10 @@ func gen(r *rand.Rand, risky bool) *caseSpec {
 
 func init() {
 	tr.Register("utxo", func(t *tr.W, thorough bool) {
+		// This driver bounds the cost of HANG observations itself (a spinning scanner is recognised
+		// without waiting, slow hangs are budgeted, the run has a deadline), and the start-height-above-
+		// tip cases it generates on purpose are HANGs: the generic abort after a few HANGs must not apply.
+		tr.MaxHangs = 1 << 30
 		for _, c := range probes() {
 			runCase(t, c)
 		}
